@@ -73,8 +73,8 @@ func verifOrderIO(kind string, off int64, b []byte) {
 		return
 	}
 	switch kind {
-	case "page":
-		e := VerifOrderEv{E: "page", ID: int(off / pageSize)}
+	case "page", "pagefail":
+		e := VerifOrderEv{E: kind, ID: int(off / pageSize)}
 		if n, ok := verifDecodePage(b); ok {
 			e.LSN = n.lastLSN
 		}
